@@ -28,6 +28,8 @@ type c19Case struct {
 	Idx       int    `json:"idx"`
 	Toolchain string `json:"toolchain"`
 	Mismatch  string `json:"mismatch,omitempty"`
+	// Naming: NameArguments on (the DefaultOpts combination).
+	Naming bool `json:"naming,omitempty"`
 }
 
 type builtProg struct {
@@ -49,7 +51,7 @@ func goEnvRoot(tool string) string {
 func buildAndCrash(c *c19Case) (*builtProg, error) {
 	rr := core.NewRand(c.Seed, 19, uint64(c.Idx))
 	p := gen.GenProg(rr, 15+rr.Intn(16))
-	dir := filepath.Join(os.Getenv("VERIF_WORK"), fmt.Sprintf("prog-%s-%d-%s", c.Toolchain, c.Idx, c.Mismatch))
+	dir := filepath.Join(os.Getenv("VERIF_WORK"), fmt.Sprintf("prog-%s-%d-%s-%v", c.Toolchain, c.Idx, c.Mismatch, c.Naming))
 	_ = os.RemoveAll(dir)
 	if err := os.MkdirAll(dir, 0o755); err != nil {
 		return nil, err
@@ -128,6 +130,9 @@ func checkFrame(f *gen.ProgFunc, cl *stack.Call) string {
 			continue
 		}
 		raw := fmt.Sprintf("0x%x", w.Value)
+		if w.Name != "" {
+			raw = w.Name // with naming on a pointer is shown by its pseudo-name
+		}
 		switch {
 		case e.pp.IsFloat:
 			bits := 64
@@ -168,8 +173,8 @@ func srcParses(p string) bool {
 	return err == nil
 }
 
-func c19Opts(goroot string, analyze bool) *stack.Opts {
-	return &stack.Opts{LocalGOROOT: goroot, LocalGOPATHs: []string{filepath.Join(os.Getenv("VERIF_WORK"), "nogopath")}, GuessPaths: true, AnalyzeSources: analyze}
+func c19Opts(goroot string, analyze, naming bool) *stack.Opts {
+	return &stack.Opts{LocalGOROOT: goroot, LocalGOPATHs: []string{filepath.Join(os.Getenv("VERIF_WORK"), "nogopath")}, GuessPaths: true, AnalyzeSources: analyze, NameArguments: naming}
 }
 
 func c19Eval(r *core.Run, c *c19Case) {
@@ -180,7 +185,7 @@ func c19Eval(r *core.Run, c *c19Case) {
 	}
 	defer os.RemoveAll(bp.dir)
 	report := func(key, what string) { r.Violation(key, what+"\n--- traceback head:\n"+b2s(bp.trace, 600), "prog", c) }
-	off, _, _, _ := scanAll(bp.trace, c19Opts(bp.goroot, false))
+	off, _, _, _ := scanAll(bp.trace, c19Opts(bp.goroot, false, c.Naming))
 	if off == nil {
 		report("nosnapshot", "real traceback not parsed")
 		return
@@ -215,7 +220,7 @@ func c19Eval(r *core.Run, c *c19Case) {
 	var panicked any
 	func() {
 		defer func() { panicked = recover() }()
-		on, _, _, _ = scanAll(bp.trace, c19Opts(bp.goroot, true))
+		on, _, _, _ = scanAll(bp.trace, c19Opts(bp.goroot, true, c.Naming))
 	}()
 	r.Eval(1)
 	if panicked != nil {
@@ -293,7 +298,7 @@ func runC19(r *core.Run) {
 	var jobs []c19Case
 	for _, t := range tools {
 		for i := 0; i < np; i++ {
-			jobs = append(jobs, c19Case{Seed: r.Seed, Idx: i, Toolchain: t})
+			jobs = append(jobs, c19Case{Seed: r.Seed, Idx: i, Toolchain: t, Naming: i%2 == 1})
 		}
 		for i := 0; i < nm/len(tools); i++ {
 			jobs = append(jobs, c19Case{Seed: r.Seed, Idx: 1000 + i, Toolchain: t, Mismatch: mism[i%len(mism)]})
